@@ -811,7 +811,7 @@ func init() {
 		},
 		New: func() Case { return &c16Any{} },
 		Num: 16,
-		Rule: "skip list: all permutations of up to 6 (quick) / 7 (thorough) distinct keys plus random maps, three comparators, probes incl. absent keys and bounds incl. lower>upper; " +
+		Rule: "skip list (after the observations of the filled map a second phase interleaves 1-6 further inserts with scans from a probe just below the new key, through one reused probe buffer): all permutations of up to 6 (quick) / 7 (thorough) distinct keys plus random maps, three comparators, probes incl. absent keys and bounds incl. lower>upper; " +
 			"heap: random lists of ascending inputs with duplicates across inputs, every 5th with an injected iterator fault. " +
 			"Non-trivial: skip list with >=3 keys, >=2 probes, >=1 bound pair; heap with >=2 non-empty inputs. Distinct = distinct hash of the full case.",
 	})
